@@ -38,6 +38,9 @@ CHECKS = {
  "C17": dict(level="model_checking", sec="3/C17", technique="exhaustive enumeration of small IL functions over each architecture's stack pointer plus lifted prologue/epilogue snippets; explicit-state product of every concrete execution with the reported offsets",
    text="For all 7 architectures: every entry-without-incoming-edge function on <=2 blocks with <=3 instructions (3 blocks <=2) from a 13-operation stack-pointer alphabet (constant moves, masking, xor, constants, other registers, loads, stores) and lifted snippets; whenever Value(o) is reported after a location the concrete sp must equal entry sp + o (mod 2^w) on every execution from 8 initial states. Runs are cut at 48 steps.",
    note="Trusted: refil reference semantics. Offsets compared modulo the pointer width."),
+ "C15": dict(level="model_checking", sec="3/C15", technique="stateright explicit-state BFS over all CFG construction/editing histories on the real ControlFlowGraph; structural invariants in every state and bounded trace-language equality across merge/append transitions",
+   text="Every history from the empty graph or one of 5 library graphs applying new_block, push, (un)conditional edges, set_entry/exit, merge, append, insert, remove_instruction, Block::append (incl. error paths) to depth 3 (full alphabet: 2) in quick, 4 (3) in thorough; all structural invariants in every state; merge must not change, and append must sequentially compose, the set of tag/guard traces up to 8 symbols; blockify of every sequence of <=3 library graphs. Longer histories are not covered.",
+   note="Trusted: harness trace enumerator (bounded at 8 symbols). State key = depth + Debug dump of the graph."),
 }
 NA = []
 def main():
